@@ -205,6 +205,42 @@ func RefDistanceOf(env MetricEnv, id int, x, y []float32) float64 {
 	return RefDistance(env, x, y)
 }
 
+// VectorKeysCheck: the vector store of an index holds an entry (full vector 'v' and/or quantised
+// form 'q') for exactly the live points that carry the vector (plus the entry node of a graph
+// index): nothing may survive the deletion of its point, whatever form it was stored in.
+func VectorKeysCheck(o *Obs, tag string, bucket map[string][]byte, nodeIds map[int]uint64, m *Model, prop string, extra ...uint64) {
+	want := map[uint64]int{}
+	for _, id := range m.SortedIds() {
+		if _, ok := VecOf(m.Docs[id], prop); ok {
+			if nid, ok := nodeIds[id]; ok {
+				want[nid] = id
+			}
+		}
+	}
+	for _, e := range extra {
+		want[e] = -1
+	}
+	have := map[uint64]bool{}
+	o.Checks++
+	for k := range bucket {
+		if len(k) != 10 || k[0] != 'n' || (k[9] != 'v' && k[9] != 'q') {
+			continue
+		}
+		nid := conversion.BytesToUint64([]byte(k[1:9]))
+		have[nid] = true
+		if _, ok := want[nid]; !ok {
+			o.Fail(tag+"-stored-vector-for-dead-node", "the vector store holds an entry %q for node id %d, which belongs to no live point with field %s (live node ids %v)", k[9:], nid, prop, want)
+			return
+		}
+	}
+	for nid, id := range want {
+		if !have[nid] && id >= 0 {
+			o.Fail(tag+"-live-point-without-stored-vector", "point %d (node id %d) carries field %s but the vector store has neither a full nor a quantised entry for it", id, nid, prop)
+			return
+		}
+	}
+}
+
 // PQCheck verifies the persisted product-quantiser encoding of every point
 // that carries the vector: centroid ids present and naming a nearest centroid.
 func PQCheck(o *Obs, tag string, env MetricEnv, m *Model, prop string) {
